@@ -6,7 +6,7 @@ from props import netprops
 LEVEL = "proof"
 RULE = ("valid SPEC-generated multi-datagram replies (Valve Source and GoldSrc split packets, 2-6 fragments): every "
         "permutation of each fragment group (exhaustive up to 5 fragments, sampled at 6) must give the same result as "
-        "in-order arrival; every single-fragment duplication inserted at every position must give an error or the same "
+        "in-order arrival; every single-fragment duplication inserted at every position, of the in-order arrival and of permuted arrivals, must give an error or the same "
         "response. Non-trivial = a delivery received; distinct = distinct implementation outputs.")
 ASSUMPTIONS = ["fragments of one reply are consecutive deliveries of one socket (no interleaving with other replies)"]
 TRUSTED = ["hand-written Lean model of the reassembly code, checked against the code on every run"]
@@ -42,7 +42,8 @@ def run(rep, tier, seed, replay=None):
             base_lines.append(v.line)
             for (ci, st, n) in gs:
                 rep.count(f"fragments:{fam}:{n}")
-                variants = netcases.permutations_of_group(c, ci, st, n, rnd) + netcases.duplications_of_group(c, ci, st, n)
+                variants = (netcases.permutations_of_group(c, ci, st, n, rnd) + netcases.duplications_of_group(c, ci, st, n)
+                            + netcases.permuted_duplications_of_group(c, ci, st, n, rnd))
                 if tier == "quick" and len(variants) > 40:
                     variants = rnd.sample(variants, 40)
                 for k, (vc, what) in enumerate(variants):
